@@ -2,6 +2,7 @@ package rules
 
 import (
 	"fmt"
+	"sort"
 	"strings"
 
 	"golang.org/x/tools/go/ssa"
@@ -13,7 +14,7 @@ func init() {
 	register(&Rule{
 		ID:    "C23",
 		Title: "Move-balance transactions conserve value and advance the nonce once",
-		Pkgs:  []string{"process/transaction"},
+		Pkgs:  []string{"process/transaction", "process/smartContract"},
 		Explain: "Decides the structural bookkeeping of a charged transfer. (S1) on every success path of processMoveBalance with a local sender, and on every charging exit of executingFailedTransaction " +
 			"(the ErrFailedTransaction sentinel), the sender's IncreaseNonce(1) happens exactly once (event count on the CFG, min = max = 1) and never on the path taken when the sender is not in this shard. " +
 			"(S2) every account mutated (SubFromBalance / AddToBalance / IncreaseNonce, or handed to processTxFee which debits it) is passed to accounts.SaveAccount with the error checked before such an exit - " +
@@ -25,6 +26,7 @@ func init() {
 }
 
 func runC23(c *core.Ctx) {
+	c23HandlerBooksWhatWasCharged(c)
 	c23SoftFailuresAfterDebit(c)
 	const pkg = "process/transaction"
 	isMut := func(cc *ssa.CallCommon, acc ssa.Value) bool {
@@ -303,9 +305,111 @@ func c23SoftFailuresAfterDebit(c *core.Ctx) {
 			return cc.StaticCallee() != nil && cc.StaticCallee().Name() == "processTxFee"
 		})
 		esc, path := core.PathQ{Fn: pmb, Via: cv.Via, ViaEdge: cv.ViaEdge, Target: func(in ssa.Instruction, _ *ssa.BasicBlock) bool { return in == ssa.Instruction(r) }}.Escape()
+		// ... and after the debited sender (value out, nonce advanced) was saved - or the sender is not
+		// in this shard: the handler reloads the sender from the accounts adapter
+		if esc == nil && len(pmb.Params) > 2 {
+			snd := ssa.Value(pmb.Params[2])
+			sv := core.NewCheckedVia(pmb, func(in ssa.Instruction, cc *ssa.CallCommon) bool {
+				if !cc.IsInvoke() || cc.Method.Name() != "SaveAccount" || len(cc.Args) == 0 {
+					return false
+				}
+				return core.Strip(cc.Args[0]) == snd
+			})
+			noSender := func(b *ssa.BasicBlock, si int) bool { return isIfNilBranch(b, snd) && si == 0 }
+			if notNil := func(b *ssa.BasicBlock, si int) bool { return sv.ViaEdge != nil && sv.ViaEdge(b, si) }; len(sv.Calls) > 0 {
+				esc, path = core.PathQ{Fn: pmb, Via: sv.Via, ViaEdge: func(b *ssa.BasicBlock, si int) bool { return notNil(b, si) || noSender(b, si) },
+					Target: func(in ssa.Instruction, _ *ssa.BasicBlock) bool { return in == ssa.Instruction(r) }}.Escape()
+			}
+		}
 		c.Check(esc == nil && len(cv.Calls) > 0, "C23/soft-failures-only-after-the-charge", fmt.Sprintf("processMoveBalance/return#%d(%s)", n, isSoft), r.Pos(),
 			"this error, which the caller turns into a refunded failed transaction, is returned only after the sender was charged",
 			isSoft+" can be returned before the sender is charged ("+c.P.PathString(path)+"): the failure handler refunds the value and books the fee of a transaction that never debited the sender - value is created, the nonce does not advance and the transaction can be replayed")
 	}
 	c.Floor("C23/soft-failures-only-after-the-charge", 2)
+}
+
+// c23HandlerBooksWhatWasCharged: when a transfer is refused after the charge (destination not
+// payable, invalid metachain transaction) the failure handler hands the transaction to
+// scProcessor.ProcessIfError, which books a fee of its own computation to the collector. Value is
+// conserved only if that is the fee the sender was debited: every debit of processTxFee that such a
+// refusal can follow is computed by the same fee function as the amount ProcessIfError books.
+func c23HandlerBooksWhatWasCharged(c *core.Ctx) {
+	fee := anchorM(c, "process/transaction", "txProcessor", "processTxFee")
+	booked := anchorM(c, "process/smartContract", "scProcessor", "createSCRsWhenError")
+	if fee == nil || booked == nil {
+		return
+	}
+	econ := func(v ssa.Value) map[string]bool {
+		out := map[string]bool{}
+		for x := range core.BackwardReachPure(v) {
+			call, ok := x.(*ssa.Call)
+			if !ok {
+				continue
+			}
+			if call.Call.IsInvoke() && strings.HasPrefix(call.Call.Method.Name(), "Compute") {
+				out[call.Call.Method.Name()] = true
+			}
+		}
+		return out
+	}
+	// what the handler books: the fee functions reaching the second result of createSCRsWhenError,
+	// the ones that are only subtracted from it left out
+	bookedBy := map[string]bool{}
+	for _, r := range core.Returns(booked) {
+		if len(r.Results) < 2 {
+			continue
+		}
+		for k := range econ(r.Results[1]) {
+			bookedBy[k] = true
+		}
+	}
+	core.Instrs(booked, func(in ssa.Instruction) {
+		call, ok := in.(*ssa.Call)
+		if !ok || !core.CallDesc(&call.Call).Is("math/big", "Int", "Sub") || len(call.Call.Args) < 3 {
+			return
+		}
+		for k := range econ(call.Call.Args[2]) {
+			delete(bookedBy, k)
+		}
+	})
+	var bl []string
+	for k := range bookedBy {
+		bl = append(bl, k)
+	}
+	sort.Strings(bl)
+	if len(bl) == 0 {
+		c.Undecided("C23/failure-handler-books-what-was-charged", "scProcessor.createSCRsWhenError", booked.Pos(), "no fee function reaches the booked fee")
+		return
+	}
+	relayed := ssa.Value(nil)
+	if len(fee.Params) > 5 {
+		relayed = fee.Params[5]
+	}
+	n := 0
+	core.Instrs(fee, func(in ssa.Instruction) {
+		cc := core.CallOf(in)
+		if cc == nil || !cc.IsInvoke() || cc.Method.Name() != "SubFromBalance" || len(cc.Args) != 1 {
+			return
+		}
+		for _, cd := range core.CondsAt(in.Block()) {
+			if cd.V == relayed && cd.Taken {
+				return // the relayed inner transaction has its own failure path
+			}
+		}
+		n++
+		by := econ(cc.Args[0])
+		same := false
+		var dl []string
+		for k := range by {
+			dl = append(dl, k)
+			if bookedBy[k] {
+				same = true
+			}
+		}
+		sort.Strings(dl)
+		c.Check(same, "C23/failure-handler-books-what-was-charged", fmt.Sprintf("txProcessor.processTxFee/debit(%s)", strings.Join(dl, ",")), in.Pos(),
+			"the debit is computed by the fee function the failure handler books ("+strings.Join(bl, ",")+")",
+			fmt.Sprintf("the sender is debited a fee computed by %v while a refusal after the charge makes ProcessIfError book a fee computed by %v to the collector: for a transfer with more gas than the move-balance minimum the collector is credited more than the sender paid - value is created", dl, bl))
+	})
+	c.Floor("C23/failure-handler-books-what-was-charged", 2)
 }
